@@ -335,6 +335,9 @@ pub const KINDS: &[Kind] = &[
     Kind { name: "px-7-digits", pieces: &["7654321px"], micro: None },
     Kind { name: "percentage-7-digits", pieces: &["1234567%"], micro: None },
     Kind { name: "neg-int", pieces: &["-1"], micro: None },
+    Kind { name: "neg-int-7-digits", pieces: &["-1234567"], micro: None },
+    Kind { name: "neg-px-7-digits", pieces: &["-3000005px"], micro: None },
+    Kind { name: "ident-double-dash", pieces: &["--"], micro: None },
     Kind { name: "pos-int", pieces: &["+1"], micro: None },
     Kind { name: "decimal", pieces: &["1.5"], micro: None },
     Kind { name: "leading-dot", pieces: &[".5"], micro: None },
